@@ -101,6 +101,8 @@ class Interp:
         self.spec_depth = 0       # > 0 while evaluating specification text
         from . import builtins_model
         self.bm = builtins_model
+        from .builtins_model2 import _install_noop
+        _install_noop()
 
     # ------------------------------------------------------------------ obligations
 
@@ -1036,6 +1038,11 @@ class Interp:
                 yield st, list(h.data['items'][h.data['pos']:])
             elif isinstance(h, HObj):
                 m = self.class_attr(h.cls, '__iter__')
+                if m is not None and not (isinstance(m, types.FunctionType) and SOURCES.node_of(m) is not None):
+                    m = None        # e.g. collections.abc.Sequence.__iter__: use the sequence protocol below
+                if m is None and self.class_attr(h.cls, '__len__') is not None and self.class_attr(h.cls, '__getitem__') is not None:
+                    yield from self._iter_sequence_protocol(st, v, node)
+                    return
                 if m is None:
                     yield st, exc(TypeError, "object is not iterable")
                     return
@@ -1070,6 +1077,25 @@ class Interp:
             yield st, exc(TypeError, "object is not iterable")
         else:
             raise Unsupported(f"iteration over {v}", node)
+
+    def _iter_sequence_protocol(self, st, v, node):
+        for s1, n in self.bm.py_len(self, st, v, node):
+            if isinstance(n, Raise):
+                yield s1, n
+                continue
+            if not n.concrete:
+                raise Unsupported("iteration over a sequence object of symbolic length", node)
+
+            def go(i, st, acc):
+                if i == n.v:
+                    yield st, acc
+                    return
+                for s2, item in self.bm.getitem(self, st, v, VInt(i), node):
+                    if isinstance(item, Raise):
+                        yield s2, item
+                    else:
+                        yield from go(i + 1, s2, acc + [item])
+            yield from go(0, s1, [])
 
     # ---- loops with invariants ---------------------------------------------------------------
 
@@ -1894,6 +1920,31 @@ class Interp:
                 else:
                     yield from self.bind_descriptor(st, d, o, o.cls, name, node)
             return
+        if isinstance(o, VConst) and isinstance(o.obj, _Super):
+            sup = o.obj
+            selfv = sup.selfv
+            if isinstance(selfv, VRef) and isinstance(st.heap[selfv.addr], HObj):
+                start_cls = st.heap[selfv.addr].cls
+            elif isinstance(selfv, VConst) and isinstance(selfv.obj, type):
+                start_cls = selfv.obj
+            elif isinstance(selfv, VExc):
+                start_cls = selfv.cls
+            else:
+                raise Unsupported("super() on this kind of self", node)
+            mro = list(start_cls.__mro__)
+            rest = mro[mro.index(sup.cls) + 1:] if sup.cls in mro else []
+            for k in rest:
+                if name in k.__dict__:
+                    d = k.__dict__[name]
+                    if k is object or (k.__module__ == 'builtins' and not isinstance(d, types.FunctionType)):
+                        if name == '__init__':
+                            yield st, VConst(_noop_init)
+                            return
+                        raise Unsupported(f"super().{name} resolves to builtin {k.__name__}", node)
+                    yield from self.bind_descriptor(st, d, selfv, start_cls, name, node)
+                    return
+            yield st, exc(AttributeError, f"'super' object has no attribute '{name}'")
+            return
         if isinstance(o, VConst):
             obj = o.obj
             try:
@@ -2123,6 +2174,10 @@ class Interp:
 
     def e_Yield(self, node, st, fr):
         raise Unsupported("yield used as an expression", node)
+
+
+def _noop_init(*a, **k):
+    return None
 
 
 class _Super:
